@@ -90,7 +90,7 @@ def run(ctx):
 
     g = objgen.G(ctx.rng)
     objs = [(name, o) for name, o in zoo()]
-    for i in range(ctx.budget(60, 3000)):
+    for i in range(ctx.budget(60, 700)):
         v, sup = g.value(0, supported=True)
         objs.append((f"gen{i}", v))
     ofails, evaluations, distinct = [], 0, set()
